@@ -43,6 +43,7 @@ def jobs(tier, seed):
         Job("c14_exact_and_infinite", "ExactTime(t) => soft = hard = t; Infinite => no limits", timeout=600, module="c14",
             gen=f"pub const C14_BOUND_S: u64 = {bound};\npub const C14_SLACK_SHIFT: u32 = {shift};\n"),
         Job("c14_lemma_half", "real Duration::mul_f32(0.5) <= d/2 + d*2^-21 + 1ns for whole-ms d <= bound; no panic", timeout=t, mem_gb=20, module="c14", params={"bound_s": bound}),
+        Job("c14_lemma_size", "real Duration::mul_f32: d*f <= d for f in {0.033, 0.5, 0.75}, d*3.0 <= 4d, all d <= 2*bound+1s", timeout=t, mem_gb=20, module="c14", params={"bound_s": bound}),
         Job("c14_lemma_monotone", "real Duration::mul_f32: d*0.75 <= d*3.0, no panic for 0.033/0.75/3.0, all d <= 2*bound+1s (ns resolution)", timeout=t, mem_gb=20, module="c14", params={"bound_s": bound}),
         Job("c14_clocks_no_mtg", "clocks without moves-to-go: soft <= hard <= half(avail), no panic", timeout=t, mem_gb=20, module="c14", params={"bound_s": bound}),
         Job("c14_clocks_mtg", "clocks with moves-to-go >= 1: soft <= hard <= half(avail), no panic", timeout=t, mem_gb=20, module="c14", params={"bound_s": bound}),
